@@ -1,0 +1,41 @@
+# Licensed under a 3-clause BSD style license - see LICENSE.rst
+"""
+Optional execution tracing for external verification harnesses.
+
+Everything here is inert unless the environment variable
+``ASTROPY_REGIONS_VERIF`` is set to ``1``.
+"""
+import os
+
+__all__ = []
+
+GUARD = 'ASTROPY_REGIONS_VERIF'
+events = []
+
+
+def enabled():
+    return os.environ.get(GUARD) == '1'
+
+
+def emit(name, **fields):
+    """
+    Record one event (a name and a dict of plain values).
+    """
+    if enabled():
+        events.append((name, fields))
+
+
+def traced(iterable, name, state):
+    """
+    Iterate over ``iterable``; when tracing is enabled, record
+    ``state()`` after the loop body has processed each item.
+    """
+    if not enabled():
+        return iterable
+    return _traced(iterable, name, state)
+
+
+def _traced(iterable, name, state):
+    for index, item in enumerate(iterable):
+        yield item
+        emit(name, index=index, **state())
